@@ -59,9 +59,15 @@ class Digest:
         return 'md5<' + self.data.decode() + '>'
 
 
-def patched_sl(eng, fs):
+def cpu_for(n_test, n_trial):
+    """Worker count reported by the stand-in for mp.cpu_count(): 4, except for the wide matrices, which are there to
+    put the trial count above 16 x workers (chunk sizes are computed from it) with a count that is not a multiple."""
+    return {17: 1, 33: 2}.get(n_trial, 4)
+
+
+def patched_sl(eng, fs, cpu=4):
     SL, SLE, Q = slsym.load_sl()
-    SL.mp = type('MP', (), dict(Pool=c04.FakePool, cpu_count=staticmethod(lambda: 4)))()
+    SL.mp = type('MP', (), dict(Pool=c04.FakePool, cpu_count=staticmethod(lambda: cpu)))()
     SL.np = models.NpProxy(dict(exp=SL.np.exp, sqrt=models.sqrt_model, zeros=models.zeros_model, array=models.array_model,
                                 load=fs.load, save=fs.save))
     SL.hashlib = type('H', (), dict(md5=staticmethod(lambda b: Digest(b))))()
@@ -76,7 +82,7 @@ def elems_for(eng, gamma, cells, tm, spec):
 
 def matrix_run(eng, n_test, n_trial, path, scenario):
     fs = FS(eng, faulty=(scenario == 'corrupt'))
-    SL = patched_sl(eng, fs)
+    SL = patched_sl(eng, fs, cpu_for(n_test, n_trial))
     gamma = slsym.curve_pieces('UnitSquare')
     cells = slsym.space_leaves(gamma, 4)
     tm = eng.real('tm')
@@ -281,7 +287,7 @@ def replay(rp):
                 import hashlib
                 import multiprocessing
                 SL.hashlib = hashlib
-                SL.mp = type('MP', (), dict(Pool=c04.FakePool, cpu_count=staticmethod(lambda: 4)))()
+                SL.mp = type('MP', (), dict(Pool=c04.FakePool, cpu_count=staticmethod(lambda: cpu_for(n_test, n_trial))))()
                 try:
                     op = SL.SingleLayerOperator(slsym.FakeMesh(gamma), quad_order=2,
                                                 cache_dir=None if scenario == 'nocache' else tmp)
@@ -384,8 +390,8 @@ def replay(rp):
 
 def run(out):
     quick = out.tier == 'quick'
-    sizes = [(3, 4), (9, 11), (10, 10), (11, 10)] if quick else [(3, 4), (9, 11), (10, 10), (11, 10), (2, 50), (25, 4),
-                                                                 (1, 100), (12, 12)]
+    sizes = [(3, 4), (9, 11), (10, 10), (11, 10), (7, 17)] if quick else [(3, 4), (9, 11), (10, 10), (11, 10), (7, 17), (4, 33),
+                                                                          (2, 50), (25, 4), (1, 100), (12, 12)]
     cases = []
     for (nt, nr) in sizes:
         for path in ('serial', 'pool'):
@@ -404,7 +410,7 @@ def run(out):
                                        'EOFError / OSError by choice)'],
                       histories='first call, same lists again, other trial list of equal length, other test list of '
                                 'equal length - all against one cache directory')
-    out.outside = ['real process pools: worker counts, chunk sizes, fork hand-over of globals',
+    out.outside = ['real process pools: scheduling, fork hand-over of globals; worker counts other than 1, 2, 4 (the stand-in reports 1 for 17 trial elements, 2 for 33, else 4)',
                    'crash points / partial writes of np.save', 'md5 collisions (md5 modelled as injective)',
                    'bitwise equality of floats across paths (entries are compared as symbolic values)',
                    'different curves sharing a cache directory']
